@@ -36,9 +36,16 @@ def replay_argv(exe, spec):
 def outcome_of(rc, recs, err, prop, harness):
     """(verdict, class) of a single-process run for the property's oracle."""
     rec = None
+    part = None
     for r in recs:
         if "run" in r and "verdict" in r:
             rec = r
+        if "partial" in r:
+            part = r
+    if rec is None and part is not None:
+        san = S.classify_sanitizer(err)
+        if san and rc != 0:
+            return "died", "%s@%s" % (san["kind"], san["first_repo_function"] or "?"), part
     if rec is not None and rec["verdict"] in ("violation", "precondition_failed"):
         return rec["verdict"], rec["class"], rec
     san = S.classify_sanitizer(err)
@@ -162,12 +169,17 @@ def run_thread_check(prop, tier, parts, budget_s, design_ref, assumptions, real_
         sig_by_run[pi] = {}
         lock_recs = []
 
-        def on_record(rec, pi=pi, part=part):
+        bad = [0]
+
+        def on_record(rec, pi=pi, part=part, bad=bad):
             lock_recs.append(rec)
+            if rec.get("verdict") in ("died", "violation"):
+                bad[0] += 1
 
         frac = (pi + 1) / (len(parts) + 0.6)
         st = S.run_shards(lambda f, c, part=part, exe=exe: harness_argv(exe, part.harness, "run", seed, f, c, part.catalogue),
-                          part.runs, on_record=on_record, deadline=budget.deadline(frac), hang_s=180)
+                          part.runs, on_record=on_record, deadline=budget.deadline(frac), hang_s=45,
+                          should_stop=lambda bad=bad: bad[0] >= 400)
         part_info.append({"harness": part.harness, "variant": part.variant, "requested_runs": part.runs, "supervisor": st})
         for rec in lock_recs:
             agg["evaluations"] += 1
@@ -236,7 +248,7 @@ def run_thread_check(prop, tier, parts, budget_s, design_ref, assumptions, real_
             if budget.left() < 5:
                 break
             S.run_shards(lambda f, c, part=part: harness_argv(part.exe, part.harness, "run", seed, f, c, part.catalogue),
-                         per, nworkers=1, first_index=stt, chunk=per, on_record=on2, hang_s=180,
+                         per, nworkers=1, first_index=stt, chunk=per, on_record=on2, hang_s=45,
                          deadline=budget.deadline(0.9))
         for rec in recs2:
             if rec.get("verdict") == "died":
